@@ -520,6 +520,33 @@ impl Foreign {
             b.push(0);
             // the value: rustbus' own Param marshaller at the absolute offset (correctness of this writer is
             // irrelevant: model and code are compared on whatever it emits)
+            // basic values are written by hand (independent of the library's validators: an object path the library would
+            // refuse to marshal must still reach the decoder); containers go through the Param marshaller
+            match (ty, val) {
+                (Ty::Base('s'), Val::Str(bs)) | (Ty::Base('o'), Val::Str(bs)) => {
+                    while b.len() % 4 != 0 {
+                        b.push(0);
+                    }
+                    b.extend_from_slice(&u32b(bs.len() as u32));
+                    b.extend_from_slice(bs);
+                    b.push(0);
+                    continue;
+                }
+                (Ty::Base('g'), Val::Str(bs)) => {
+                    b.push(bs.len() as u8);
+                    b.extend_from_slice(bs);
+                    b.push(0);
+                    continue;
+                }
+                (Ty::Base('u'), Val::Num(n)) => {
+                    while b.len() % 4 != 0 {
+                        b.push(0);
+                    }
+                    b.extend_from_slice(&u32b(*n as u32));
+                    continue;
+                }
+                _ => {}
+            }
             if let Some(p) = to_param(ty, val, &[]) {
                 let mut fds = Vec::new();
                 let mut ctx = MarshalContext { buf: &mut b, fds: &mut fds, byteorder: bo };
